@@ -63,6 +63,13 @@ class Undecided(Exception):
 
 # ----------------------------------------------------------------------------- build
 
+def alt_tag():
+    """prefix of the build output directory: one per scratch tree (two evaluations of different trees may run at once)."""
+    if REPO == "/repo":
+        return ""
+    return "alt-%s-" % hashlib.sha1(REPO.encode()).hexdigest()[:8]
+
+
 def modfile():
     """go.mod to build with: the committed one for /repo, a generated one
     (same content, other replace targets) for a VERIF_REPO scratch tree."""
@@ -416,7 +423,7 @@ def cmd_check(prop, tier, only_units=None, replay_file=None):
         need_fuzz = any(u["mode"] == "fuzz" for u in units)
         # binaries built against a VERIF_REPO scratch tree go elsewhere: a binary of a broken tree left under the
         # usual name is a trap for whoever runs it by hand later
-        outdir = os.path.join(BUILD, "%s%s-%s" % ("" if REPO == "/repo" else "alt-", prop, tier))
+        outdir = os.path.join(BUILD, "%s%s-%s" % (alt_tag(), prop, tier))
         bins = {}
         helpers = spec.get("helpers", ())
         if need_plain or not (need_race or need_fuzz):
@@ -505,7 +512,7 @@ def cmd_replay(prop, path):
     """re-runs exactly one saved failing case."""
     path = os.path.abspath(path)
     spec = checks.PROPS[prop]
-    outdir = os.path.join(BUILD, "%s%s-replay" % ("" if REPO == "/repo" else "alt-", prop))
+    outdir = os.path.join(BUILD, "%s%s-replay" % (alt_tag(), prop))
     race = any(u.get("race") for u in spec["units"])
     base = os.path.basename(path)
     work = os.path.join(WORK, "replay-%s-%d" % (prop, os.getpid()))
